@@ -74,7 +74,8 @@ func (q *queue) len() uint64 {
 func (q *queue) push(ctx context.Context) (EvictFunc, <-chan core.Listener) {
 	q.mu.Lock()
 	defer q.mu.Unlock()
-	releaseChan := make(chan core.Listener)
+	// buffered: a hand-off must not depend on the waiter having reached its select yet
+	releaseChan := make(chan core.Listener, 1)
 
 	e := &queueElement{ctx: ctx, releaseChan: releaseChan}
 
@@ -276,8 +277,19 @@ func (l *QueueBlockingLimiter) tryAcquire(ctx context.Context) core.Listener {
 		return listener
 	}
 
+	// Retry, check the backlog size and enqueue atomically with respect to unblock (which
+	// holds the same lock): a token released in between is either seen by the retry or
+	// handed to the enqueued element, and two arrivals cannot both take the last slot.
+	l.mu.Lock()
+	listener, ok = l.delegate.Acquire(ctx)
+	if ok && listener != nil {
+		l.mu.Unlock()
+		return listener
+	}
+
 	// Restrict backlog size so the queue doesn't grow unbounded during an outage
 	if l.backlog.len() >= l.maxBacklogSize {
+		l.mu.Unlock()
 		return nil
 	}
 
@@ -285,6 +297,7 @@ func (l *QueueBlockingLimiter) tryAcquire(ctx context.Context) core.Listener {
 	// operation.  Holders will be unblocked in LIFO or FIFO order depending on whatever
 	// ordering was configured when backlog was instantiated
 	evict, eventReleaseChan := l.backlog.push(ctx)
+	l.mu.Unlock()
 
 	// We're using a nil chan so that we
 	// can avoid needing to duplicate the
@@ -313,15 +326,29 @@ func (l *QueueBlockingLimiter) tryAcquire(ctx context.Context) core.Listener {
 		return listener
 	case <-backlogTimeout:
 		// Remove the holder from the backlog.
-		evict()
-		return nil
+		return l.giveUp(evict, eventReleaseChan)
 	case <-ctxDone:
 		// The context has been cancelled before `maxBacklogTimeout`
 		// could elapse. Since this context no longer needs a listener
 		// we evict it from the backlog to free up space.
-		evict()
-		return nil
+		return l.giveUp(evict, eventReleaseChan)
 	}
+}
+
+// giveUp removes a waiter from the backlog. If unblock handed it a listener in the
+// meantime the listener is returned (and used) rather than stranded in the channel.
+func (l *QueueBlockingLimiter) giveUp(evict EvictFunc, eventReleaseChan <-chan core.Listener) core.Listener {
+	l.mu.Lock()
+	defer l.mu.Unlock()
+	evict()
+	select {
+	case listener, ok := <-eventReleaseChan:
+		if ok {
+			return listener
+		}
+	default:
+	}
+	return nil
 }
 
 // Acquire a token from the limiter.  Returns an Optional.empty() if the limit has been exceeded.
